@@ -36,7 +36,7 @@ def _answers(prop, tier, system, thms, modes=(False,), level="model_checking"):
     if system in ("z", "w", "l", "p"):
         # implementation-shaped algorithms refine the definitions; inputs that tell the named wrong variants apart are always replayed
         infer.verify_algo(chk, tier)
-        dcases = infer.distinguishing_cases(rng) + infer.distinguishing_cases(rng, "wAnyTie")
+        dcases = infer.distinguishing_cases(rng) + infer.distinguishing_cases(rng, "wAnyTie") + infer.distinguishing_cases(rng, "lexAllMcsF")
         dcases += [c for c in (infer.gen_case_defaults(rng) for _ in range(60 if tier == "quick" else 1500)) if c]
         if tier == "thorough":
             found = [p for p in infer.search_distinguishing(chk, rng, 20000) if p.get("variant") == "lexAllPairs"]
